@@ -159,6 +159,7 @@ type Exec struct {
 	inInit   bool
 	pathVio  int
 	nondetN  int
+	pcSet    map[*Term]bool
 	model    map[*Term]*Term
 	modelOK  bool
 	ModelHits, ModelMiss int
@@ -264,6 +265,13 @@ func (e *Exec) branch(c *Term) bool {
 		return b
 	}
 	tt := e.tt
+	// the condition (or its negation) is literally part of the path condition: no decision
+	if e.pcSet[c] {
+		return true
+	}
+	if e.pcSet[tt.Not(c)] {
+		return false
+	}
 	if e.pos < len(e.trail) {
 		d := &e.trail[e.pos]
 		e.pos++
@@ -298,7 +306,7 @@ func (e *Exec) branch(c *Term) bool {
 				}
 			}
 		}
-		e.pc = append(e.pc, lit)
+		e.addPC(lit)
 		return side
 	}
 	e.pos++
@@ -316,18 +324,18 @@ func (e *Exec) branch(c *Term) bool {
 			d.AltModel = m
 		}
 		e.trail = append(e.trail, d)
-		e.pc = append(e.pc, lit)
+		e.addPC(lit)
 		return mv
 	}
 	e.ModelMiss++
 	r := e.checkM(c)
 	if r != "unsat" {
 		e.trail = append(e.trail, Decision{N: 2, Choice: 0, Checked: true, Solver: true})
-		e.pc = append(e.pc, c)
+		e.addPC(c)
 		return true
 	}
 	e.trail = append(e.trail, Decision{N: 2, Choice: 1, Checked: true, Solver: true})
-	e.pc = append(e.pc, tt.Not(c))
+	e.addPC(tt.Not(c))
 	return false
 }
 
@@ -359,14 +367,14 @@ func (e *Exec) assume(c *Term) {
 	}
 	if mv, ok := e.evalModel(c); ok && mv {
 		e.ModelHits++
-		e.pc = append(e.pc, c)
+		e.addPC(c)
 		return
 	}
 	e.ModelMiss++
 	if e.checkM(c) == "unsat" {
 		e.fail(OutAssumeFalse, "")
 	}
-	e.pc = append(e.pc, c)
+	e.addPC(c)
 }
 
 // concretize enumerates feasible values of a BV term (cap values).
@@ -1036,7 +1044,7 @@ func (e *Exec) exec(g *G, fr *Frame, instr ssa.Instruction, nested bool) {
 		fr.env[in] = &MapObj{KT: mt.Key(), VT: mt.Elem()}
 		fr.pc++
 	case *ssa.Range:
-		fr.env[in] = e.rangeIter(e.get(fr, in.X))
+		fr.env[in] = e.rangeIter(e.get(fr, in.X), in)
 		fr.pc++
 	case *ssa.Next:
 		fr.env[in] = e.iterNext(g, e.get(fr, in.Iter), in)
@@ -1205,4 +1213,9 @@ func (e *Exec) callErrMethod(g *G, f *errMethod, args []Value) Value {
 func (e *Exec) freshString(prefix string) *Term {
 	name := e.tt.FreshName(prefix)
 	return e.tt.Var(name, SStr)
+}
+
+func (e *Exec) addPC(l *Term) {
+	e.pc = append(e.pc, l)
+	e.pcSet[l] = true
 }
